@@ -429,3 +429,70 @@ Example C03_worker_nonvacuous :
   C03Worker.w_pc s = C03Worker.WDone /\
   C03Worker.w_out s = [1]%Z /\ C03Worker.w_pushed s = [1; 2]%Z /\ C03Worker.w_todo s = [].
 Proof. exact C03WorkerProofs.worker_nonvacuous. Qed.
+
+(* ---- 11. stream ends that go through the registry ----------------------------------------------
+   "When a stream ends for any reason (publisher disconnect, replacement by a new publisher,
+   administrative delete, idle close, server shutdown) every consumer attached to it … is closed …
+   the consumer count is zero": the stream-ending events reach a stream only through media's
+   registry (Regist retires the stream it replaces, Unregist / admin delete / UnregistAll find the
+   stream there).  Model/Registry.v (C05) is the registry with histories of new / regist / unregist /
+   close / get / attach / detach / idle / unregist-all; each stream carries the ghost counters
+   [st_att_total] (successful attaches) and [st_det_total] (successful detaches), and
+   [released s] = the number of its consumers whose Close must have been called (all once it has
+   ended, the detached ones while it is live).  [sexec sinit ops] is the specification's state after
+   the history.  Tied to /repo by the stream "registry-ends" of checks/c03.py: histories on the real
+   media package with recording consumers; the oracle [ok_reg_end_C03] compares the recorded
+   Consumer.Close calls per stream with [released] in the specification's end state. *)
+From V Require Registry RegistryProofs RunC05 RunC03Reg RegistryWireProofs.
+
+(* every consumer ever attached is attached or released; an ended stream has nobody attached and all
+   its consumers released; the shutdown ends every stream that resolves and releases its consumers *)
+Theorem C03_registry_end_releases : forall ops,
+  let sp := Registry.sexec Registry.sinit ops in
+  (forall i, (Registry.released (Registry.sp_get sp i) + Registry.consumers (Registry.sp_get sp i) =
+              Registry.st_att_total (Registry.sp_get sp i))%Z) /\
+  (forall i, Registry.st_live (Registry.sp_get sp i) = false ->
+     Registry.st_rtp (Registry.sp_get sp i) = 0%Z /\ Registry.st_flv (Registry.sp_get sp i) = 0%Z /\
+     Registry.released (Registry.sp_get sp i) = Registry.st_att_total (Registry.sp_get sp i)) /\
+  (let sp' := fst (Registry.sstep sp Registry.GUnregistAll) in
+   forall k i, Registry.sp_resolve sp k = Some i ->
+     Registry.st_live (Registry.sp_get sp' i) = false /\
+     Registry.st_rtp (Registry.sp_get sp' i) = 0%Z /\ Registry.st_flv (Registry.sp_get sp' i) = 0%Z /\
+     Registry.released (Registry.sp_get sp' i) = Registry.st_att_total (Registry.sp_get sp i)).
+Proof. exact RegistryProofs.registry_end_releases. Qed.
+Print Assumptions C03_registry_end_releases.
+
+(* a stream ended by replacement (no consumers), unregistration, close or the idle task never comes
+   back: it stays ended — and hence fully released — whatever happens next *)
+Theorem C03_registry_ended_stays_ended : forall ops sp j,
+  (j < length (Registry.sp_streams sp)) -> Registry.st_live (Registry.sp_get sp j) = false ->
+  Registry.st_live (Registry.sp_get (Registry.sexec sp ops) j) = false.
+Proof. exact (fun ops sp j => RegistryProofs.dead_forever ops sp j). Qed.
+Print Assumptions C03_registry_ended_stays_ended.
+
+(* the implementation model of the registry (the code's map operations) passes the oracle on every
+   well-formed history (only live streams are registered), also in its extracted on-the-wire form *)
+Theorem C03_reg_model_passes : forall ops,
+  Registry.hist_wf Registry.sinit ops = true ->
+  Registry.ok_reg_end_C03 ops
+    (Registry.end_vec (Registry.g_streams (fst (Registry.grun Registry.rfixed Registry.rinit ops)))) = true.
+Proof. exact RegistryProofs.reg_model_passes. Qed.
+Print Assumptions C03_reg_model_passes.
+
+Theorem C03_reg_model_passes_on_the_wire : forall c,
+  RunC05.c05_variant (Val.nthv 0 c) = Registry.rfixed ->
+  Registry.hist_wf Registry.sinit (RunC05.c05_ops c) = true ->
+  RunC03Reg.x_C03_reg_ok (Val.VL [c; RunC03Reg.x_C03_reg_run c]) = Val.VI 1%Z.
+Proof. exact RegistryWireProofs.reg_model_passes_on_the_wire. Qed.
+Print Assumptions C03_reg_model_passes_on_the_wire.
+
+(* non-vacuity: stream 0 with an RTP consumer is replaced by stream 1 with an FLV consumer, the old
+   publisher leaves (Unregist 0), the successor is still found, the shutdown ends it: both streams
+   ended, one consumer each, one Close each *)
+Example C03_registry_nonvacuous :
+  Registry.hist_wf Registry.sinit RegistryProofs.example_shutdown = true /\
+  Registry.end_vec (Registry.sp_streams (Registry.sexec Registry.sinit RegistryProofs.example_shutdown)) =
+    [(false, 1%Z, 1%Z); (false, 1%Z, 1%Z)] /\
+  Registry.ok_reg_end_C03 RegistryProofs.example_shutdown [(false, 1%Z, 1%Z); (false, 1%Z, 1%Z)] = true /\
+  Registry.ok_reg_end_C03 RegistryProofs.example_shutdown [(false, 1%Z, 1%Z); (true, 1%Z, 0%Z)] = false.
+Proof. vm_compute. auto. Qed.
